@@ -140,8 +140,8 @@ func c50Ops(thorough bool) []vsched.Op {
 
 func TestVerif_C50_globals(t *testing.T) {
 	vx.Run(t, "C50", func(c *vx.Ctx) {
-		bounds := vx.Pick(c, []int{2}, []int{-1})
-		c.Rule("concurrent part: for every unordered pair of calls from a small alphabet (ToASCII / ToUnicode of multi-label names through the shared profiles Lookup, Display, Registration, Punycode and through freshly built profiles (transitional mapping; bidi rule + DNS length; thorough: ValidateLabels, ValidateForRegistration+StrictDomainName+RemoveLeadingDots, New()): names whose runes are mapped through the mappings table (upper case, full width, ideographic dot, one-to-two mapping, deviation characters), A-labels in several case variants, raw punycode with astral runes, and names rejected for a disallowed rune, a joiner, a punycode overflow, a leading hyphen, the bidi rule) two threads run one call each (thorough: twice each) on the instrumented idna source starting from the package's initial state; every schedule (quick: at most 2 preemptions; thorough: unbounded) at the scheduling points — before each statement mentioning a written package-level variable " + fmt.Sprint(zzWrittenGlobals) + ", sync.Once, sync.Pool Get/Put, sync.Mutex — is executed and each call must return what it returns alone (result string and error text)")
+		bounds := vx.Pick(c, []int{2}, []int{3})
+		c.Rule("concurrent part: for every unordered pair of calls from a small alphabet (ToASCII / ToUnicode of multi-label names through the shared profiles Lookup, Display, Registration, Punycode and through freshly built profiles (transitional mapping; bidi rule + DNS length; thorough: ValidateLabels, ValidateForRegistration+StrictDomainName+RemoveLeadingDots, New()): names whose runes are mapped through the mappings table (upper case, full width, ideographic dot, one-to-two mapping, deviation characters), A-labels in several case variants, raw punycode with astral runes, and names rejected for a disallowed rune, a joiner, a punycode overflow, a leading hyphen, the bidi rule) two threads run one call each (thorough: twice each) on the instrumented idna source starting from the package's initial state; every schedule (quick: at most 2 preemptions; thorough: at most 3) at the scheduling points — before each statement mentioning a written package-level variable " + fmt.Sprint(zzWrittenGlobals) + ", sync.Once, sync.Pool Get/Put, sync.Mutex — is executed and each call must return what it returns alone (result string and error text)")
 		c.Assume("concurrent part: the package-level profiles are shared between the two threads (the package offers them for concurrent use), profiles made with New are built inside each call; statement granularity at mentions of written package-level variables; accesses to heap objects only reachable from them and mutation through method calls are not scheduling points; code of golang.org/x/text (norm, bidirule) is not instrumented")
 		seq := 0
 		if !c.Quick() {
